@@ -369,7 +369,9 @@ theorem commitsOn_transact (k : Conn) (i m : Nat) :
     · rw [commitsOn_abort]; simp [commitsOn, say, List.countP_cons, isCommit]
     · split
       · rw [commitsOn_abort]; simp [commitsOn, say, List.countP_cons, isCommit]
-      · split <;> simp [commitsOn, say, List.countP_cons, isCommit]
+      · split
+        · rw [commitsOn_abort]; simp [commitsOn, say, List.countP_cons, isCommit]
+        · split <;> simp [commitsOn, say, List.countP_cons, isCommit]
   · simp [h3, commitsOn_abort]
 
 theorem sum_map_modify {α : Type} (g : α → Nat) (f : α → α) (l : List α) (c : Nat) (x : α) (h : l[c]? = some x) :
